@@ -1,4 +1,5 @@
 HARNESSES = {
+    'Gate': dict(split={'hot': 4, 'width': 3, 'two': 2}),
     'Step': dict(split={'len': 6, 'mode': 2}, quick=dict(params={'W': 6}), thorough=dict(params={'W': 9}, split={'len': 9, 'mode': 2})),
     'Header': dict(split={'len': 9}, quick=dict(params={'W': 8}), thorough=dict(params={'W': 11}, split={'len': 12})),
     'Prefix': dict(split={'cut': 9}, quick=dict(params={'L': 5}), thorough=dict(params={'L': 6}, split={'cut': 10})),
